@@ -91,3 +91,23 @@ Proof. vm_compute. auto. Qed.
 Lemma vis_public_refuted : vin_consistent empty_all_vin = true /\ is_public empty_all_vin = Some true
                            /\ doc_is_public empty_all_vin = false.
 Proof. vm_compute. auto. Qed.
+
+(* ---- statements packaged for Properties/C01.v ---- *)
+Lemma visibility_table_names : forall i,
+  is_special i = Some (doc_is_special i) /\ is_private i = Some (doc_is_private i) /\
+  is_class_private i = Some (doc_is_class_private i) /\ is_imported i = Some (doc_is_imported i).
+Proof. intro i. repeat split. exact (vis_special i). exact (vis_private i). exact (vis_class_private i). exact (vis_imported i). Qed.
+
+Lemma visibility_table_modulo_known : forall i, vin_consistent i = true ->
+  (gap_no_parent i = false -> is_exported i = Some (doc_is_exported i) /\ is_wildcard_exposed i = Some (doc_is_wildcard_exposed i)) /\
+  (gap_empty_all i = false -> is_public i = Some (doc_is_public i)).
+Proof.
+  intros i Hc. split; intros Hg.
+  - split. exact (vis_exported_modulo_known i Hc Hg). exact (vis_wildcard_modulo_known i Hc Hg).
+  - exact (vis_public_modulo_known i Hc Hg).
+Qed.
+
+Lemma visibility_table_refuted :
+  (exists i, vin_consistent i = true /\ is_exported i = None /\ is_wildcard_exposed i = None) /\
+  (exists i, vin_consistent i = true /\ is_public i = Some true /\ doc_is_public i = false).
+Proof. split. exists root_module_vin. exact vis_exported_refuted. exists empty_all_vin. exact vis_public_refuted. Qed.
